@@ -180,6 +180,8 @@ pub struct ChildRec {
     pub role_tag: u8,
     /// a stream child that stays Pending forever (waker never fired) once it has produced this many items
     pub never_after: u16,
+    /// address at which a !Unpin leaf was first polled (0 = not tracked): it must never change afterwards
+    pub addr: usize,
 }
 
 pub struct WakerRec {
@@ -255,6 +257,8 @@ pub struct World {
     pub spurious_left: u8,
     pub inpoll_left: u8,
     pub dropwake_left: u8,
+    /// inside a group operation or the drop of the subject (destructors run there too)
+    pub op_depth: u8,
     pub drops_left: u8,
     pub panics_left: u8,
     pub ops_left: u8,
@@ -333,6 +337,7 @@ impl World {
             spurious_left: 0,
             inpoll_left: 0,
             dropwake_left: 0,
+            op_depth: 0,
             drops_left: 0,
             panics_left: 0,
             ops_left: 0,
@@ -366,6 +371,7 @@ impl World {
         self.spurious_left = cfg.spurious;
         self.inpoll_left = cfg.inpoll;
         self.dropwake_left = cfg.dropwake;
+        self.op_depth = 0;
         self.drops_left = cfg.drops;
         self.panics_left = cfg.panics;
         self.ops_left = cfg.ops;
@@ -452,6 +458,7 @@ impl World {
             first_poll_step: NONE,
             role_tag: 0,
             never_after: u16::MAX,
+            addr: 0,
         });
         if owner != u16::MAX {
             let c = &mut self.combs[owner as usize];
@@ -591,6 +598,19 @@ impl World {
         let pc = self.combs[k as usize].parent_child;
         if pc != NONE {
             self.child_waker_invoked(pc, latest);
+        }
+    }
+
+    /// Pin contract: a `!Unpin` child that has been polled must stay where it is until it is dropped.
+    pub fn check_pinned(&mut self, id: u32, addr: usize) {
+        let r = &mut self.children[id as usize];
+        if r.addr == 0 {
+            r.addr = addr;
+        } else if r.addr != addr {
+            let home = self.combs[r.owner as usize].home;
+            let polls = r.polls;
+            self.violate(home, || format!("child {} (a !Unpin future) was moved after it had been polled {} time(s): an address-sensitive future would be invalid, its output is lost", id, polls));
+            self.children[id as usize].addr = addr;
         }
     }
 
@@ -774,15 +794,18 @@ impl World {
         self.ch.devs < self.cfg.dev
     }
 
-    /// A leaf is being dropped: may its destructor wake a pending sibling? Only inside a combinator's poll (that is
-    /// where a combinator could still hold a lock), only siblings that are live and Pending.
+    /// A leaf is being dropped: may its destructor wake a pending sibling? Only inside a combinator's poll, a group
+    /// operation (remove) or the drop of the subject (that is where a combinator could hold a lock), only siblings that
+    /// are live and Pending.
     pub fn dropwake_decide(&mut self, me: u32) -> Option<(u32, Waker)> {
-        if self.dropwake_left == 0 || self.stack.is_empty() || !self.dev_ok() {
+        if self.dropwake_left == 0 || (self.stack.is_empty() && self.op_depth == 0) || !self.dev_ok() {
             return None;
         }
         let mut cands = Vec::new();
         for (cid, r) in self.children.iter().enumerate() {
-            if cid as u32 == me || r.is_inner || r.cur == NONE || r.spec.never || r.finished || r.removed || r.in_poll || r.last != Ans::Pending {
+            // a pending sibling's current waker, or the dying leaf's own (a future that wakes its task when it is cancelled)
+            let own = cid as u32 == me;
+            if r.is_inner || r.cur == NONE || r.spec.never || r.finished || (r.removed && !own) || r.in_poll || r.last != Ans::Pending {
                 continue;
             }
             cands.push(r.cur);
